@@ -73,6 +73,22 @@ def gen_one(rng, i, tier):
         if ts:  # same number of thresholds (the shape is already chosen), now placed relative to the rounded scores
             new = gen.thresholds(rng, pos, neg, k=len(ts) + 4)
             ts = (new + ts)[:len(ts)]
+    elif rng.random() < 0.12:
+        # unsigned / boolean score arrays (differences wrap around, negation is not the mirror image): small
+        # non-negative integers, many ties, given unsorted
+        dtype = rng.choice(["u1", "u1", "u2", "b1"])
+        hi_ = 1 if dtype == "b1" else rng.choice([3, 9, 200])
+        pos = [float(rng.randint(0, hi_)) for _ in pos]
+        neg = [float(rng.randint(0, hi_)) for _ in neg]
+        if ts:
+            ts = (gen.thresholds(rng, pos, neg, k=len(ts) + 4) + ts)[:len(ts)]
+    elif rng.random() < 0.1 and (pos or neg):
+        # infinite scores (a detector that saturates): the decision rule still orders them, inf >= inf holds
+        dtype = "float-inf"
+        for xs in (pos, neg):
+            for j in range(len(xs)):
+                if rng.random() < 0.25:
+                    xs[j] = rng.choice([math.inf, -math.inf])
     return {"stream": stream, "pos": pos, "neg": neg, "ep": ep, "en": en, "sc": sc, "ec": ec,
             "sorted": rng.random() < 0.3, "ts": ts, "shape": shape, "dtype": dtype,
             "via": rng.choice(["ctor", "ctor", "from_labels"]),
@@ -100,6 +116,9 @@ def _tags(inp):
         t.append("empty-class")
     if any(math.isinf(x) for x in inp["ts"]):
         t.append("inf-threshold")
+    t.append("dtype=" + str(inp.get("dtype")))
+    if any(isinstance(x, float) and math.isinf(x) for x in inp["pos"] + inp["neg"]):
+        t.append("inf-score")
     return tuple(t)
 
 
@@ -108,8 +127,21 @@ def build(inp) -> Case:
 
     inp = dict(inp)
     inp["ts"] = [common.unjson_num(x) for x in inp["ts"]]
-    pos, neg = list(inp["pos"]), list(inp["neg"])
-    npdt = {"int": int, "f4": np.float32}.get(inp["dtype"], float)
+    pos, neg = [common.unjson_num(x) for x in inp["pos"]], [common.unjson_num(x) for x in inp["neg"]]
+    npdt = {"int": int, "f4": np.float32, "u1": np.uint8, "u2": np.uint16, "b1": np.bool_}.get(inp["dtype"], float)
+    # Infinite scores: the model's scores are rationals.  Counting by the decision rule depends only on the order
+    # relations between scores and thresholds, so scores AND thresholds are sent through one order embedding
+    # (+-inf -> +-M with M beyond every finite value; inf == inf stays an equality) before they reach the driver.
+    has_inf = any(math.isinf(x) for x in pos + neg)
+    if has_inf:
+        big = 2.0 * max([abs(x) for x in pos + neg + inp["ts"] if math.isfinite(x)] + [1.0]) + 16.0
+
+        def emb(x):
+            x = float(x)
+            return big if x == math.inf else (-big if x == -math.inf else x)
+    else:
+        def emb(x):
+            return x
     srt = bool(inp["sorted"])
     if srt:  # caller's contract: arrays already sorted
         pos, neg = sorted(pos), sorted(neg)
@@ -156,8 +188,9 @@ def build(inp) -> Case:
                 pre.append(Issue("PROPFAIL", "rate", f"{name}({inp['ts'][k]})={r[k]} but cells give {num}/{den}", f"rate/{name}"))
             if not (r[k] == ra[k] or (math.isnan(r[k]) and math.isnan(ra[k]))):
                 pre.append(Issue("PROPFAIL", "alias", f"{alias} != {name}", f"alias/{alias}"))
-    lines = [line("cm", pos=ql(mpos), neg=ql(mneg), ep=inp["ep"], en=inp["en"], sc=inp["sc"],
-                  ec=inp["ec"], sorted=int(srt), ts=ql(inp["ts"]), icms=il(icms))]
+    ets = [emb(t) for t in inp["ts"]]
+    lines = [line("cm", pos=ql([emb(x) for x in mpos]), neg=ql([emb(x) for x in mneg]), ep=inp["ep"], en=inp["en"],
+                  sc=inp["sc"], ec=inp["ec"], sorted=int(srt), ts=ql(ets), icms=il(icms))]
     # pointwise_cm on the labelled samples (any order, any label encoding)
     r = common.call(pointwise_cm, np.array(labels, dtype=object if isinstance(pl, str) else None),
                     np.array(allsc, dtype=npdt), tarr, pos_label=pl,
@@ -171,10 +204,10 @@ def build(inp) -> Case:
         pre.append(Issue("PROPFAIL", "shape", f"pointwise_cm shape {pw.shape}", "pointwise/shape"))
     pws = pw.sum(axis=0).reshape(-1, 2, 2)
     ipw = [int(v) for m in pws for v in (m[0, 0], m[0, 1], m[1, 0], m[1, 1])]
-    lines.append(line("pwcm", lab=il([1] * len(pos) + [0] * len(neg)), sco=ql(allsc),
-                      sc=inp["sc"], ec=inp["ec"], ts=ql(inp["ts"]), icms=il(ipw)))
-    held_pos = [common.fr(x) for x in np.asarray(s.pos).tolist()]
-    held_neg = [common.fr(x) for x in np.asarray(s.neg).tolist()]
+    lines.append(line("pwcm", lab=il([1] * len(pos) + [0] * len(neg)), sco=ql([emb(x) for x in allsc]),
+                      sc=inp["sc"], ec=inp["ec"], ts=ql(ets), icms=il(ipw)))
+    held_pos = [common.fr(emb(float(x))) for x in np.asarray(s.pos).tolist()]
+    held_neg = [common.fr(emb(float(x))) for x in np.asarray(s.neg).tolist()]
     nt = len(inp["ts"])
     inp["_evals"] = 2 * nt + 1
 
